@@ -81,8 +81,11 @@ func (bi *BodyInspector) Inspect(ctx context.Context, r *http.Request, profile *
 	}
 
 	// Restore the body for downstream handlers by creating a new reader that combines
-	// what we've already read with any remaining unread content
-	r.Body = io.NopCloser(io.MultiReader(bytes.NewReader(buffer.Bytes()), r.Body))
+	// what we've already read with any remaining unread content. The restored body
+	// outlives this call, so it gets its own copy: the pooled buffer is reset and
+	// handed to the next request as soon as we return.
+	bodyCopy := bytes.Clone(buffer.Bytes())
+	r.Body = io.NopCloser(io.MultiReader(bytes.NewReader(bodyCopy), r.Body))
 
 	modelName := bi.extractModelName(buffer.Bytes())
 	if modelName != "" {
